@@ -238,6 +238,14 @@ def add_violation(out, roles_seen, shape, g, m, mode, role, summary):
 
 # ------------------------------------------------------------------ materialise / replay
 
+_FILL = 'abcdefghijklmnopqrstuvwxyz0123456789'
+
+
+def fill(n, k=0, letters=False):
+    al = _FILL[:26] if letters else _FILL
+    return ''.join(al[(k + i) % len(al)] for i in range(max(n, 0)))
+
+
 def materialize(v):
     Tl, tc, Te, te, Sb, cs, Ea, ce = (v[k] for k in ('Tl', 'tc', 'Te', 'te', 'Sb', 'cs', 'Ea', 'ce'))
     allv = [Tl, tc, Te, te, Sb, cs, Ea, ce] + [c['n'] for c in v['changes']] + \
@@ -245,41 +253,45 @@ def materialize(v):
     if max(allv) > 1500:
         return None
     nl = max([Ea] + [c['n'] for c in v['changes']]) + 2
-    lines = {i: 'v%d = %d;' % (i, i) for i in range(1, nl + 1)}
+    # every filler byte differs from its neighbours (and, up to 36 columns, from every other one): the
+    # character diff of an old line against the new one is then unambiguous, so the real line_diff
+    # reports exactly the intended ranges (runs of equal blanks let the diff slide an edit onto the tag)
+    lines = {i: fill(9, 3 * i, letters=True) + ';' for i in range(1, nl + 1)}
     # start comment: lines Tl..Sb
-    head = '/*' + ' ' * (tc - 3) + '<block name="blk"'
+    head = '/*' + fill(tc - 3) + '<block name="blk"'
     if len(head) != tc - 1 + 17:
         return None
     if Tl == Te:
         if te < tc + 17:
             return None
-        first = head + ' ' * (te - (tc + 17)) + '>'
+        gap = te - (tc + 17)
+        first = head + (' ' + fill(gap - 1, 5) if gap >= 1 else '') + '>'
         cur = {Tl: first}
     else:
         cur = {Tl: head}
         for k in range(Tl + 1, Te):
-            cur[k] = '   a%d="x"' % k
-        cur[Te] = ' ' * (te - 1) + '>'
+            cur[k] = ' a%d="x"' % k
+        cur[Te] = (' ' + fill(te - 2, 11) if te >= 2 else '') + '>'
     if Te == Sb:
         ln = cur[Te]
         if cs < len(ln) + 3:
             return None
-        cur[Te] = ln + ' ' * (cs - 1 - len(ln) - 2) + '*/'
+        cur[Te] = ln + fill(cs - 1 - len(ln) - 2, 17) + '*/'
     else:
         for k in range(Te + 1, Sb):
-            cur[k] = '   more comment text'
+            cur[k] = ' ' + fill(14, 2 * k)
         if cs < 3:
             return None
-        cur[Sb] = ' ' * (cs - 3) + '*/'
+        cur[Sb] = fill(cs - 3, 23) + '*/'
     for k, t in cur.items():
         lines[k] = t
     end = '/* </block> */'
     if Ea == Sb:
         if ce < cs:
             return None
-        lines[Sb] = lines[Sb] + ' ' * (ce - cs) + end
+        lines[Sb] = lines[Sb] + fill(ce - cs, 29, letters=True) + end
     else:
-        lines[Ea] = ' ' * (ce - 1) + end
+        lines[Ea] = fill(ce - 1, 31, letters=True) + end
     # changed lines
     added_before = 0
     diff = ['diff --git a/f.js b/f.js', 'index 1111111..2222222 100644', '--- a/f.js', '+++ b/f.js']
@@ -292,8 +304,7 @@ def materialize(v):
         else:
             need = max(b for a, b in c['ranges'])
             if len(lines[n]) < need:
-                lines[n] = lines[n] + ' ' + 'q' * (need - len(lines[n]) - 1) if need - len(lines[n]) >= 1 else lines[n]
-                lines[n] = lines[n].ljust(need, 'q')
+                lines[n] = lines[n] + ' ' + fill(need - len(lines[n]) - 1, 7, letters=True)
             old = list(lines[n])
             for a, b in c['ranges']:
                 for k in range(a, b):
